@@ -771,7 +771,12 @@ def check(ctx):
 
 
 def run_rules_release(mir2, r2, cx):
+    from .. import mir as _m
     r2.rule("R-C07-inventory", "")
-    run_rules(mir2, r2, cx)
+    _m.UNCHECKED_AS_CHECKED = True
+    try:
+        run_rules(mir2, r2, cx)
+    finally:
+        _m.UNCHECKED_AS_CHECKED = False
     # floors differ in the release shape (no overflow asserts): drop floor violations
     r2.violations = [v for v in r2.violations if v.rule != "floor"]
